@@ -386,6 +386,9 @@ def run(R) -> None:
     R.rule('C11.R3', lambda: r3_class_constants(R))
     R.rule('C11.R4', lambda: r4_mutable_defaults(R))
     R.rule('C11.R5', lambda: (r5_globals_never_written(R), r5b_no_memoised_mutables(R)))
+    # sibling instances built from the same data share nothing: a series never adopts the caller's array (C09.R1b)
+    from rules import c09
+    R.rule('C11.R6', lambda: c09.r1b_fresh_arrays(R))
 
 
 def run_thorough(R) -> None:
